@@ -306,10 +306,18 @@ def run_groups(v, groups, n, tick=50, race=False, parts_fixed=6, classify=None, 
             if all(again[sid] + clean_ok[sid] > 0 for sid, _, _ in rejected):
                 break
             judge(attempt(k))
+        # a single undisturbed rejection is not yet a verdict (on a machine with a load average of 90 one attempt out of many
+        # was rejected for a behaviour-preserving change although its own clockwork looked fine): such scenarios get up to
+        # two more attempts, and a scenario is reported only if it was rejected in at least two undisturbed attempts and in
+        # more of them than it was accepted in - correct code is not rejected twice, a defect is rejected every time
+        for k in range(6, 8):
+            if not any(again[sid] == 1 or (again[sid] >= 1 and clean_ok[sid] >= again[sid]) for sid, _, _ in rejected):
+                break
+            judge(attempt(k))
         for sid, s, consumed in rejected:
-            if again[sid] == 0:
+            if again[sid] < 2 or again[sid] <= clean_ok[sid]:
                 total["unreproduced"] += 1
-                log("scenario %s rejected once (%s) but not reproduced in 3 isolated re-runs: ignored" % (sid, first_unmatched(s, consumed)))
+                log("scenario %s rejected (%s) in %d isolated undisturbed re-run(s), accepted in %d: not a verdict, ignored" % (sid, first_unmatched(s, consumed), again[sid], clean_ok[sid]))
                 continue
             total["rejected"] += 1
             s2, c2, t2 = last[sid]
@@ -323,7 +331,7 @@ def run_groups(v, groups, n, tick=50, race=False, parts_fixed=6, classify=None, 
             one_trace = os.path.join(vflib.sub("rej"), sid + "-trace.ndjson")
             vflib.write_ndjson(one_trace, [s2])
             v.report(key, [script, one_trace], {"group": g, "scenario": sid, "consumed": c2, "events": s2["ev"], "first_unmatched": what,
-                                                "reproduced": "%d/3" % again[sid], "tick_ms": tick * 3,
+                                                "reproduced": "rejected in %d undisturbed re-runs, accepted in %d" % (again[sid], clean_ok[sid]), "tick_ms": tick * 3,
                                                 "replay_cmd": "tools/vf check %s --replay <this dir>" % v.prop})
     cov = v.coverage
     cov["states"] = cov.get("states", 0) + total["states"]
